@@ -301,10 +301,19 @@ def written_values(ctx, cases, res):
 
 
 
+JUDGE_KIND = {"C09": "spec-dd", "C19": "protocol", "C11": "swap", "C02": "derivation"}
+JUDGE_TEXT = {
+    "C09": ("with the spec's -- read as a -- at that position of the command line",
+            "a reading with options ended where the spec says --"),
+    "C19": ("with only the types whose IsBoolFlag() answers true read as flags",
+            "the tokens of a reading in which only the types whose IsBoolFlag() answers true are flags"),
+}
+
+
 def judge_sentences(ctx, cases, res, prop):
     """direct oracle for C01/C02: the reference semantics against the implementation"""
     qs = sentence_cases(cases)
-    if prop in ("C02", "C09"):
+    if prop == "C02" or prop in JUDGE_TEXT:
         for q, c in zip(qs, cases):
             a, _ = res[c["id"]]
             if accepted(a):
@@ -329,18 +338,18 @@ def judge_sentences(ctx, cases, res, prop):
         stats["claimed"] += 1
         acc = accepted(a)
         stats["accept" if acc else "reject"] += 1
-        if prop == "C09":
-            # a -- written in the spec is read as the reference semantics reads it: options end at that position
+        if prop in JUDGE_TEXT:
+            # acceptance and bound values judged by the reference semantics, reported under the calling property
+            why_acc, why_dv = JUDGE_TEXT[prop]
             if acc != (lo == "yes"):
-                ctx.violation("spec-dd", "spec %r, command line %r: the implementation %s it, but with the spec's -- read as "
-                              "a -- at that position of the command line it is %sa sentence of the spec"
-                              % (c["root"]["spec"], c["argv"], "accepts" if acc else "rejects", "" if lo == "yes" else "not "),
+                ctx.violation(JUDGE_KIND[prop], "spec %r, command line %r: the implementation %s it, but %s it is %sa sentence of the spec"
+                              % (c["root"]["spec"], c["argv"], "accepts" if acc else "rejects", why_acc, "" if lo == "yes" else "not "),
                               case=c, impl=a["outcome"], reference=lo)
             if acc and dv:
                 stats["derivations"] += 1
             if acc and lo == "yes" and dv == "no":
-                ctx.violation("spec-dd", "spec %r, command line %r: the bound values %r are not a reading with options ended "
-                              "where the spec says --" % (c["root"]["spec"], c["argv"], a["values"]), case=c, impl=a["values"])
+                ctx.violation(JUDGE_KIND[prop], "spec %r, command line %r: the bound values %r are not %s"
+                              % (c["root"]["spec"], c["argv"], a["values"], why_dv), case=c, impl=a["values"])
         elif prop == "C01":
             if acc != (lo == "yes"):
                 ctx.violation("sentence", "spec %r, command line %r: the implementation %s it, but it is %sa sentence of the spec"
@@ -409,6 +418,31 @@ def check_C02(ctx):
                 extra.append({"op": "run", "env": {}, "version": None, "root": root, "argv": list(t)})
     if len(extra) > ctx.scale(30000, 300000):
         extra = ctx.rng.sample(extra, ctx.scale(30000, 300000))
+    # several []string variables declared with the very same default slice: what is written for one of them must
+    # not show up in another
+    sh = []
+    sdecls = [gen.mkopt("strings", "x", defshare="k", sbu=True, **{"def": ["d1", "d2", "d3"]}),
+              gen.mkopt("strings", "y", defshare="k", sbu=True, **{"def": ["d1", "d2", "d3"]}),
+              gen.mkarg("strings", "ARG", defshare="k", sbu=True, **{"def": ["d1", "d2", "d3"]})]
+    occ = [["-x", "1"], ["-y", "2"], ["-x", "3"], ["-y=4"], ["p"], ["q"], ["-x5"]]
+    for n in range(1, ctx.scale(4, 5) + 1):
+        for ps in itertools.product(occ, repeat=n):
+            av = [t for p_ in ps for t in p_]
+            for sp in ("[-x...] [-y...] [ARG...]", "[OPTIONS] [ARG...]"):
+                sh.append({"op": "run", "env": {}, "version": None, "root": gen.mkcmd("app", decls=copy.deepcopy(sdecls), spec=sp, policy=0), "argv": av})
+    if len(sh) > ctx.scale(4000, 40000):
+        sh = ctx.rng.sample(sh, ctx.scale(4000, 40000))
+    res_sh = correspond(ctx, sh, fields, "variables sharing one default slice")
+    st_sh = judge_sentences(ctx, sh, res_sh, "C02")
+    for c in sh:
+        a, _ = res_sh[c["id"]]
+        if accepted(a):
+            for d in sdecls:
+                key = "app|" + d["name"]
+                if not a["sbu"].get(key) and a["values"].get(key) != ["d1", "d2", "d3"]:
+                    ctx.violation("derivation", "spec %r, command line %r: nothing was written for %s, yet it holds %r instead of its default"
+                                  % (c["root"]["spec"], c["argv"], d["name"], a["values"].get(key)), case=c, impl=a["values"])
+    ctx.stream("variables sharing one default slice", 0, **st_sh)
     res = correspond(ctx, cases, fields, "random specs, observable bindings")
     st1 = judge_sentences(ctx, cases, res, "C02")
     res2 = correspond(ctx, extra, fields, "ambiguous specs, all short command lines")
